@@ -1,14 +1,1375 @@
-//! C05 — not implemented yet (stub).
-use crate::report::{Cfg, Meta, Report};
+//! C05 — instruction semantics match the instruction reference on every stack state.
+//!
+//! Differential runtime monitor: the REAL pipeline (`Case::assemble` + `Case::execute`, final stack
+//! from `ExecutionTrace::stack_outputs()`) against the documentation-derived reference interpreter
+//! `models::isa` (M-isa), compared three-valued:
+//!
+//! * `Defined(stack)`  — the real final stack must be identical at every position (incl. > 15),
+//! * `Fail(kind)`      — the real code must fail with the documented error family (and error code),
+//! * `Undefined`       — the real code must not panic.
+//!
+//! Workload: (a) single-instruction programs with a boundary operand grid in every operand position
+//! over initial depths 0..40 with unique filler elements, every immediate / textual form;
+//! (b) model-guided random instruction sequences (2..40 instructions) that mostly satisfy the
+//! documented preconditions and violate them at a configurable rate.
+
+use crate::case::{err_kind, AsmOutcome, Case, ExecOutcome};
+use crate::models::isa::{self, FailKind, Machine, Op, Parsed, ProgramText, Step, Verdict, P};
+use crate::report::{merge_all, Cfg, Meta, Report};
+use crate::util::{biased_felt, biased_u32, par_map, rng_for, PanicInfo, Rng8};
+use processor::ExecutionError;
+use rand::seq::SliceRandom;
+use rand::Rng;
+use serde_json::{json, Value};
+use std::collections::BTreeSet;
 
 pub fn meta() -> Meta {
-    Meta { level: "exploration", rule: "stub".into(), assumptions: vec![] }
+    Meta {
+        level: "exploration",
+        rule: "each evaluation = one generated program (source text + initial stack) run through the real assembler+processor and through the docs-derived reference interpreter M-isa, compared three-valued (Defined: final stacks identical at every position incl. overflow; Fail: documented error family and error code; Undefined: no panic). Phase `single`: one instruction, boundary grid {0,1,2,2^16-1,2^16,2^31,2^32-1,2^32,2^32+1,2^63,p-2,p-1,rand u32,rand felt} in every operand position and for every immediate, all textual immediate forms, initial depth 0..40 with unique fillers. Phase `seq`: model-guided sequences of 2..40 instructions with deliberate precondition violations. distinct = distinct (phase, instruction kind, immediate form, operand-class tuple, depth class, outcome class) for single cases and (length bucket, depth class, outcome class, last instruction kind) for sequences".into(),
+        assumptions: vec![
+            "M-isa is hand-written from docs/src/user_docs/assembly/*.md; where the docs say 'undefined' or are silent the oracle only requires no panic".into(),
+            "the extension field of ext2inv/ext2div (modulus q not defined in the user docs) is F_p[x]/(x^2-x+2)".into(),
+            "immediates of non-push instructions are only generated in decimal form (the docs define no other form for them)".into(),
+            "clk is excluded (no cycle model); advice/memory/crypto/flow-control instructions are out of scope".into(),
+        ],
+    }
 }
 
-pub fn run(_cfg: &Cfg) -> Report {
-    let mut rep = Report::new();
-    rep.inconclusive("not-implemented");
+// REAL SIDE
+// ================================================================================================
+
+pub enum Real {
+    AsmErr(String),
+    AsmPanic(PanicInfo),
+    ExecErr(ExecutionError),
+    ExecPanic(PanicInfo),
+    Ok(Vec<u64>),
+}
+
+impl Real {
+    pub fn class(&self) -> String {
+        match self {
+            Real::AsmErr(_) => "asm-err".into(),
+            Real::AsmPanic(_) => "asm-panic".into(),
+            Real::ExecErr(e) => format!("exec-err:{}", err_kind(e)),
+            Real::ExecPanic(_) => "exec-panic".into(),
+            Real::Ok(_) => "ok".into(),
+        }
+    }
+}
+
+pub fn make_case(prog: &ProgramText, stack: &[u64]) -> Case {
+    Case::new(prog.to_source()).with_stack(stack)
+}
+
+/// Runs the real pipeline. If `side` is given, the T-air side monitor is run on a successful trace.
+pub fn run_real(case: &Case, side: Option<(&mut Rng8, &mut Report)>) -> Real {
+    let prog = match case.assemble() {
+        AsmOutcome::Ok(p) => p,
+        AsmOutcome::Err(e) => return Real::AsmErr(e),
+        AsmOutcome::Panic(p) => return Real::AsmPanic(p),
+    };
+    match case.execute(&prog) {
+        ExecOutcome::Ok(mut t) => {
+            let out = t.stack_outputs().stack().to_vec();
+            if let Some((rng, rep)) = side {
+                rep.count("side_monitor", "t-air-checked");
+                crate::props::c03::monitor_trace(case, &mut t, rng, 1, 0, rep);
+            }
+            Real::Ok(out)
+        }
+        ExecOutcome::Err(e) => Real::ExecErr(e),
+        ExecOutcome::Panic(p) => Real::ExecPanic(p),
+    }
+}
+
+// COMPARISON
+// ================================================================================================
+
+/// A deviation: signature suffix (the culprit instruction kind is prepended later) + description.
+#[derive(Clone, Debug)]
+pub struct Deviation {
+    pub suffix: String,
+    pub what: String,
+    /// panic on an input the docs leave undefined
+    pub undefined_panic: bool,
+}
+
+fn dev(suffix: impl Into<String>, what: impl Into<String>) -> Option<Deviation> {
+    Some(Deviation { suffix: suffix.into(), what: what.into(), undefined_panic: false })
+}
+
+/// Three-valued comparison of the reference verdict with the real outcome.
+pub fn compare(prog: &ProgramText, verdict: &Verdict, real: &Real) -> Option<Deviation> {
+    let undefined = matches!(verdict, Verdict::Undefined { .. });
+    match real {
+        Real::AsmPanic(p) => {
+            return Some(Deviation {
+                suffix: format!("asm-panic/{}", p.site()),
+                what: format!("assembler panicked: {} at {} (reference: {})", p.message, p.location, verdict.class()),
+                undefined_panic: undefined,
+            })
+        }
+        Real::ExecPanic(p) => {
+            return Some(Deviation {
+                suffix: format!("exec-panic/{}", p.site()),
+                what: format!("processor panicked: {} at {} (reference: {})", p.message, p.location, verdict.class()),
+                undefined_panic: undefined,
+            })
+        }
+        _ => {}
+    }
+    match (verdict, real) {
+        (Verdict::Undefined { .. }, _) => None,
+        (Verdict::Defined(exp), Real::Ok(got)) => {
+            if exp == got {
+                return None;
+            }
+            if exp.len() != got.len() {
+                return dev(
+                    "depth-mismatch",
+                    format!("final depth: reference {} real {}; reference {:?} real {:?}", exp.len(), got.len(), exp, got),
+                );
+            }
+            let i = (0..exp.len()).find(|&i| exp[i] != got[i]).unwrap();
+            dev(
+                if i < 16 { "result-mismatch" } else { "deep-result-mismatch" },
+                format!("final stack differs at position {i}: reference {} real {}; reference {:?} real {:?}", exp[i], got[i], exp, got),
+            )
+        }
+        (Verdict::Defined(_), Real::AsmErr(e)) => dev("rejected-where-doc-defined", format!("docs define the program but assembly fails: {e}")),
+        (Verdict::Defined(_), Real::ExecErr(e)) => {
+            dev(format!("fails-where-doc-defined/{}", err_kind(e)), format!("docs define the result but execution fails: {e:?}"))
+        }
+        (Verdict::Fail { kind, .. }, Real::Ok(got)) => dev(
+            format!("succeeds-where-doc-fails/{}", kind.class()),
+            format!("docs require failure {:?} but execution succeeds with {:?}", kind, got),
+        ),
+        (Verdict::Fail { kind, .. }, Real::AsmErr(e)) => match kind {
+            FailKind::Asm(_) | FailKind::DivideByZero { imm: true } => None,
+            // a zero immediate divisor anywhere may legitimately be reported by the assembler
+            _ if isa::has_zero_divisor_imm(prog) && e.contains("division by zero") => None,
+            _ => dev(
+                format!("rejected-at-assembly/{}", kind.class()),
+                format!("docs require run-time failure {:?} but assembly fails: {e}", kind),
+            ),
+        },
+        (Verdict::Fail { kind, .. }, Real::ExecErr(e)) => {
+            let fam = |ok: bool| {
+                if ok {
+                    None
+                } else {
+                    dev(
+                        format!("wrong-error/{}-got-{}", kind.class(), err_kind(e)),
+                        format!("docs require failure {:?}, real error is {e:?}", kind),
+                    )
+                }
+            };
+            match kind {
+                FailKind::Asm(w) => dev(
+                    format!("assembles-where-doc-invalid/{w}"),
+                    format!("docs make the parameter invalid ({w}) but the program assembles (then fails with {e:?})"),
+                ),
+                FailKind::DivideByZero { .. } => fam(matches!(e, ExecutionError::DivideByZero(_))),
+                FailKind::NotBinary => fam(matches!(e, ExecutionError::NotBinaryValue(_))),
+                FailKind::LogArgumentZero => fam(matches!(e, ExecutionError::LogArgumentZero(_))),
+                FailKind::Pow2Range => None,
+                FailKind::NotU32 { code } => match e {
+                    ExecutionError::NotU32Value(_, c) => match code {
+                        Some(code) if c.as_int() != *code as u64 => dev(
+                            "wrong-err-code",
+                            format!("docs require error code {code}, real error is {e:?}"),
+                        ),
+                        _ => None,
+                    },
+                    _ => fam(false),
+                },
+                FailKind::Assertion { code } => match e {
+                    ExecutionError::FailedAssertion { err_code, .. } => {
+                        if err_code == code {
+                            None
+                        } else {
+                            dev("wrong-err-code", format!("docs require error code {code}, real error is {e:?}"))
+                        }
+                    }
+                    _ => fam(false),
+                },
+            }
+        }
+        (_, Real::AsmPanic(_)) | (_, Real::ExecPanic(_)) => None,
+    }
+}
+
+fn depth_class(d: usize) -> &'static str {
+    match d {
+        0 => "0",
+        1..=15 => "1-15",
+        16 => "16",
+        _ => "17-40",
+    }
+}
+
+fn val_class(v: u64) -> &'static str {
+    match v {
+        0 => "0",
+        1 => "1",
+        2..=31 => "2..31",
+        32..=63 => "32..63",
+        64..=0xFFFF => "<2^16",
+        0x1_0000..=0x7FFF_FFFF => "<2^31",
+        0x8000_0000..=0xFFFF_FFFE => "<2^32-1",
+        0xFFFF_FFFF => "2^32-1",
+        0x1_0000_0000 => "2^32",
+        0x1_0000_0001..=0x7FFF_FFFF_FFFF_FFFF => "<2^63",
+        _ => {
+            if v >= P - 2 {
+                "p-2..p-1"
+            } else {
+                ">=2^63"
+            }
+        }
+    }
+}
+
+/// Result of one oracle evaluation.
+pub struct Checked {
+    pub verdict: Verdict,
+    pub real_class: String,
+    pub violated: bool,
+}
+
+/// Finds the first instruction at which real and reference diverge, and a minimal witness.
+fn attribute(prog: &ProgramText, stack: &[u64], full: &Deviation) -> (String, Deviation, ProgramText, Vec<u64>) {
+    let n = prog.tokens.len();
+    if let Verdict::Fail { at: None, .. } | Verdict::Undefined { at: None, .. } = isa::run_program(prog, stack) {
+        // the reference already stops at a constant declaration
+        let minimal = ProgramText { consts: prog.consts.clone(), tokens: vec!["push.1".into()] };
+        let v = isa::run_program(&minimal, &[]);
+        let r = run_real(&make_case(&minimal, &[]), None);
+        return match compare(&minimal, &v, &r) {
+            Some(d) if d.suffix == full.suffix => ("const-decl".into(), d, minimal, vec![]),
+            _ => ("const-decl".into(), full.clone(), prog.clone(), stack.to_vec()),
+        };
+    }
+    for k in 1..=n {
+        let pk = prog.prefix(k);
+        let v = isa::run_program(&pk, stack);
+        let r = run_real(&make_case(&pk, stack), None);
+        if let Some(d) = compare(&pk, &v, &r) {
+            let culprit = isa::token_kind(&pk.tokens[k - 1]);
+            // try to reduce to the single instruction on the reference's pre-state
+            if k > 1 {
+                if let Verdict::Defined(pre) = isa::run_program(&prog.prefix(k - 1), stack) {
+                    let single = ProgramText { consts: prog.consts.clone(), tokens: vec![pk.tokens[k - 1].clone()] };
+                    let v1 = isa::run_program(&single, &pre);
+                    let r1 = run_real(&make_case(&single, &pre), None);
+                    if let Some(d1) = compare(&single, &v1, &r1) {
+                        if d1.suffix == d.suffix {
+                            return (culprit, d1, single, pre);
+                        }
+                    }
+                }
+            }
+            return (culprit, d, pk, stack.to_vec());
+        }
+    }
+    // only the complete program deviates (should not happen): blame the last instruction
+    let culprit = prog.tokens.last().map(|t| isa::token_kind(t)).unwrap_or_else(|| "empty".into());
+    (culprit, full.clone(), prog.clone(), stack.to_vec())
+}
+
+/// One oracle evaluation of (program, initial stack); reports violations with attribution.
+pub fn check_program(
+    prog: &ProgramText,
+    stack: &[u64],
+    phase: &str,
+    rep: &mut Report,
+    side: Option<&mut Rng8>,
+    force_side: bool,
+) -> Checked {
+    let verdict = isa::run_program(prog, stack);
+    let case = make_case(prog, stack);
+    let undefined = matches!(verdict, Verdict::Undefined { .. });
+    // T-air side monitor: a sample of all successful executions, and a denser sample of the
+    // executions that succeed on inputs the docs leave undefined (the trace must still be valid)
+    let mut side = side;
+    let do_side = match side.as_mut() {
+        Some(rng) => force_side || rng.gen_ratio(1, if undefined { 8 } else { 256 }),
+        None => false,
+    };
+    let real = match side {
+        Some(rng) if do_side => {
+            let mut side_rep = Report::new();
+            let r = run_real(&case, Some((rng, &mut side_rep)));
+            let culprit = match &verdict {
+                Verdict::Undefined { at: Some(i), .. } => prog.tokens.get(*i).map(|t| isa::token_kind(t)).unwrap_or_default(),
+                _ => String::new(),
+            };
+            for v in std::mem::take(&mut side_rep.violations) {
+                let vm_op = v.sig.split('@').nth(1).unwrap_or(&v.sig).to_string();
+                let sig = if undefined {
+                    format!("undefined-input-invalid-trace/{vm_op}")
+                } else {
+                    format!("invalid-trace/{}", v.sig)
+                };
+                rep.violation(
+                    sig,
+                    format!(
+                        "[{phase}] `{}` on stack (top first) {:?} executes successfully{} but its trace violates the AIR: {}",
+                        prog.to_source().replace('\n', " "),
+                        stack,
+                        if undefined { format!(" (docs: undefined input of `{culprit}`)") } else { String::new() },
+                        v.what
+                    ),
+                    json!({"kind": "case", "case": case.to_json(), "phase": phase, "side_monitor": true}),
+                );
+            }
+            side_rep.violation_counts.clear();
+            rep.merge(side_rep);
+            r
+        }
+        _ => run_real(&case, None),
+    };
+    let real_class = real.class();
+    rep.count("outcome", &format!("{} -> {}", verdict.class().split(':').next().unwrap_or(""), real_class));
+    let mut violated = false;
+    if let Some(d) = compare(prog, &verdict, &real) {
+        violated = true;
+        let (culprit, d, wprog, wstack) = attribute(prog, stack, &d);
+        let sig = if d.undefined_panic {
+            // one finding per panic site, whichever instruction reaches it
+            format!("undefined-input-panic/{}", d.suffix.splitn(2, '/').nth(1).unwrap_or(&d.suffix))
+        } else {
+            format!("{culprit}/{}", d.suffix)
+        };
+        let wcase = make_case(&wprog, &wstack);
+        rep.violation(
+            sig,
+            format!("[{}] `{}` on stack (top first) {:?}: {}", phase, wprog.to_source().replace('\n', " "), wstack, d.what),
+            json!({"kind": "case", "case": wcase.to_json(), "phase": phase}),
+        );
+    }
+    Checked { verdict, real_class, violated }
+}
+
+/// Coverage bookkeeping for a non-violating evaluation.
+fn record(prog: &ProgramText, stack: &[u64], chk: &Checked, phase: &str, rep: &mut Report) {
+    rep.count("phase", phase);
+    rep.count(&format!("initial_depth_{phase}"), depth_class(stack.len()));
+    match &chk.verdict {
+        Verdict::Defined(fin) => {
+            for t in &prog.tokens {
+                rep.count("kind_ok", &isa::token_kind(t));
+                rep.count("imm_form", &format!("{}:{}", Op::from_name(t.split('.').next().unwrap_or("")).map(|o| if o == Op::Push { "push" } else { "op" }).unwrap_or("?"), isa::param_form(t)));
+            }
+            for c in &prog.consts {
+                let e = c.split_once('=').map(|x| x.1).unwrap_or("");
+                let f = if e.starts_with("0x") {
+                    "hex"
+                } else if e.bytes().all(|b| b.is_ascii_digit()) {
+                    "dec"
+                } else {
+                    "expr"
+                };
+                rep.count("const_decl_form", f);
+            }
+            rep.count("final_depth", if fin.len() > 16 { ">16" } else { "16" });
+            if fin.len() > 16 || stack.len() > 16 {
+                rep.count("deep_checked", phase);
+            }
+        }
+        Verdict::Fail { kind, at } => {
+            let k = at.and_then(|i| prog.tokens.get(i)).map(|t| isa::token_kind(t)).unwrap_or_else(|| "const-decl".into());
+            rep.count("kind_fail", &format!("{k} | {} -> {}", kind.class(), chk.real_class));
+            rep.count("kind_fail_class", &format!("{k} | {}", kind.class()));
+        }
+        Verdict::Undefined { why, at } => {
+            let k = at.and_then(|i| prog.tokens.get(i)).map(|t| isa::token_kind(t)).unwrap_or_else(|| "const-decl".into());
+            rep.count("kind_undefined", &format!("{k} | {why} -> {}", chk.real_class));
+            rep.count("undefined_real_outcome", &chk.real_class);
+        }
+    }
+}
+
+// INSTRUCTION SPECS (generator metadata; semantics live in the model)
+// ================================================================================================
+
+/// Operand kinds (what a "good" operand looks like for the docs' preconditions).
+#[derive(Clone, Copy, Debug, PartialEq, Eq)]
+pub enum K {
+    /// any field element
+    F,
+    /// unique tagged filler (stack manipulation: position matters, value does not)
+    T,
+    /// u32
+    U,
+    /// binary
+    B,
+    /// non-zero field element
+    NZ,
+    /// non-zero u32
+    UNZ,
+    /// shift amount 0..=31
+    Sh,
+    /// pow2 exponent 0..=63
+    P2,
+    One,
+    Zero,
+    /// exponent limited to the declared number of bits (exp.uN)
+    EB,
+}
+
+#[derive(Clone, Copy, Debug, PartialEq, Eq)]
+pub enum ImmGen {
+    None,
+    Felt,
+    NzFelt,
+    U32,
+    NzU32,
+    Shift,
+    Index(u64, u64),
+    ExpBits,
+    ExpVal,
+    Err,
+    Push,
+}
+
+#[derive(Clone, Debug)]
+pub struct Spec {
+    pub kind: String,
+    pub name: &'static str,
+    pub op: Op,
+    /// stack operands in this form, top first
+    pub operands: Vec<K>,
+    pub imm: ImmGen,
+    /// documented failing cases (FailKind::class) that must be observed
+    pub fails: Vec<&'static str>,
+}
+
+pub fn specs() -> Vec<Spec> {
+    use ImmGen as I;
+    use K::*;
+    let mut v: Vec<Spec> = vec![];
+    let mut add = |name: &'static str, suffix: &str, operands: Vec<K>, imm: ImmGen, fails: Vec<&'static str>| {
+        v.push(Spec { kind: format!("{name}{suffix}"), name, op: Op::from_name(name).expect(name), operands, imm, fails });
+    };
+    // assertions
+    for (n, ops) in [("assert", vec![One]), ("assertz", vec![Zero]), ("assert_eq", vec![F, F]), ("assert_eqw", vec![F; 8])] {
+        add(n, "", ops.clone(), I::None, vec!["Assertion"]);
+        add(n, ".err", ops, I::Err, vec!["Assertion", "Asm(err-code-not-32-bit)"]);
+    }
+    // field arithmetic
+    for n in ["add", "sub", "mul"] {
+        add(n, "", vec![F, F], I::None, vec![]);
+        add(n, ".b", vec![F], I::Felt, vec![]);
+    }
+    add("div", "", vec![NZ, F], I::None, vec!["DivideByZero"]);
+    add("div", ".b", vec![F], I::NzFelt, vec!["DivideByZero(imm)"]);
+    add("neg", "", vec![F], I::None, vec![]);
+    add("inv", "", vec![NZ], I::None, vec!["DivideByZero"]);
+    add("pow2", "", vec![P2], I::None, vec!["Pow2Range"]);
+    add("exp", "", vec![F, F], I::None, vec![]);
+    add("exp", ".uN", vec![EB, F], I::ExpBits, vec!["Asm(exp-bits-out-of-range)"]);
+    add("exp", ".b", vec![F], I::ExpVal, vec![]);
+    add("ilog2", "", vec![NZ], I::None, vec!["LogArgumentZero"]);
+    add("not", "", vec![B], I::None, vec!["NotBinary"]);
+    for n in ["and", "or", "xor"] {
+        add(n, "", vec![B, B], I::None, vec!["NotBinary"]);
+    }
+    // comparisons
+    for n in ["eq", "neq"] {
+        add(n, "", vec![F, F], I::None, vec![]);
+        add(n, ".b", vec![F], I::Felt, vec![]);
+    }
+    for n in ["lt", "lte", "gt", "gte"] {
+        add(n, "", vec![F, F], I::None, vec![]);
+    }
+    add("is_odd", "", vec![F], I::None, vec![]);
+    add("eqw", "", vec![F; 8], I::None, vec![]);
+    // extension field
+    for n in ["ext2add", "ext2sub", "ext2mul"] {
+        add(n, "", vec![F; 4], I::None, vec![]);
+    }
+    add("ext2neg", "", vec![F; 2], I::None, vec![]);
+    add("ext2inv", "", vec![F; 2], I::None, vec!["DivideByZero"]);
+    add("ext2div", "", vec![F; 4], I::None, vec!["DivideByZero"]);
+    // u32 conversions / tests
+    add("u32test", "", vec![F], I::None, vec![]);
+    add("u32testw", "", vec![F; 4], I::None, vec![]);
+    for (n, k) in [("u32assert", 1), ("u32assert2", 2), ("u32assertw", 4)] {
+        add(n, "", vec![U; k], I::None, vec!["NotU32(code)"]);
+        add(n, ".err", vec![U; k], I::Err, vec!["NotU32(code)", "Asm(err-code-not-32-bit)"]);
+    }
+    add("u32cast", "", vec![F], I::None, vec![]);
+    add("u32split", "", vec![F], I::None, vec![]);
+    // u32 arithmetic
+    for n in ["u32overflowing_add", "u32wrapping_add", "u32overflowing_sub", "u32wrapping_sub", "u32overflowing_mul", "u32wrapping_mul"] {
+        add(n, "", vec![U, U], I::None, vec![]);
+        add(n, ".b", vec![U], I::U32, vec![]);
+    }
+    for n in ["u32overflowing_add3", "u32wrapping_add3", "u32overflowing_madd", "u32wrapping_madd"] {
+        add(n, "", vec![U, U, U], I::None, vec![]);
+    }
+    for n in ["u32div", "u32mod", "u32divmod"] {
+        add(n, "", vec![UNZ, U], I::None, vec!["DivideByZero"]);
+        add(n, ".b", vec![U], I::NzU32, vec!["DivideByZero(imm)"]);
+    }
+    // u32 bitwise
+    for n in ["u32and", "u32or", "u32xor"] {
+        add(n, "", vec![U, U], I::None, vec!["NotU32"]);
+    }
+    add("u32not", "", vec![U], I::None, vec!["NotU32"]);
+    for n in ["u32shl", "u32shr", "u32rotl", "u32rotr"] {
+        add(n, "", vec![Sh, U], I::None, vec![]);
+        add(n, ".b", vec![U], I::Shift, vec![]);
+    }
+    for n in ["u32popcnt", "u32clz", "u32ctz", "u32clo", "u32cto"] {
+        add(n, "", vec![U], I::None, vec![]);
+    }
+    for n in ["u32lt", "u32lte", "u32gt", "u32gte", "u32min", "u32max"] {
+        add(n, "", vec![U, U], I::None, vec![]);
+    }
+    // stack manipulation
+    add("drop", "", vec![T], I::None, vec![]);
+    add("dropw", "", vec![T; 4], I::None, vec![]);
+    add("padw", "", vec![], I::None, vec![]);
+    for (n, lo, hi, bare) in [
+        ("dup", 0, 15, true),
+        ("dupw", 0, 3, true),
+        ("swap", 1, 15, true),
+        ("swapw", 1, 3, true),
+        ("movup", 2, 15, false),
+        ("movupw", 2, 3, false),
+        ("movdn", 2, 15, false),
+        ("movdnw", 2, 3, false),
+    ] {
+        if bare {
+            add(n, "", vec![T; 16], I::None, vec![]);
+        }
+        add(n, ".n", vec![T; 16], I::Index(lo, hi), vec!["Asm(index-out-of-range)"]);
+    }
+    add("swapdw", "", vec![T; 16], I::None, vec![]);
+    add("cswap", "", vec![B, T, T], I::None, vec!["NotBinary"]);
+    add("cdrop", "", vec![B, T, T], I::None, vec!["NotBinary"]);
+    let mut w9 = vec![B];
+    w9.extend(vec![T; 8]);
+    add("cswapw", "", w9.clone(), I::None, vec!["NotBinary"]);
+    add("cdropw", "", w9, I::None, vec!["NotBinary"]);
+    // inputs
+    add("push", "", vec![], I::Push, vec!["Asm(not-a-field-element)", "Asm(push-more-than-16)"]);
+    add("sdepth", "", vec![], I::None, vec![]);
+    v
+}
+
+pub const GRID_FIXED: [u64; 12] =
+    [0, 1, 2, (1 << 16) - 1, 1 << 16, 1 << 31, (1 << 32) - 1, 1 << 32, (1 << 32) + 1, 1 << 63, P - 2, P - 1];
+
+fn grid(rng: &mut Rng8) -> Vec<u64> {
+    let mut g = GRID_FIXED.to_vec();
+    g.push(rng.gen::<u32>() as u64);
+    g.push(rng.gen_range(0..P));
+    g
+}
+
+/// unique, distinguishable filler for absolute position `i` of the initial stack
+fn filler(i: usize, salt: u64) -> u64 {
+    (((i as u64 + 1) << 40) | ((salt & 0xFFFF) << 16) | (0x5A00 + i as u64)) % P
+}
+
+fn good(k: K, pos: usize, salt: u64, rng: &mut Rng8) -> u64 {
+    match k {
+        K::F | K::EB => biased_felt(rng),
+        K::T => filler(pos, salt),
+        K::U => biased_u32(rng),
+        K::B => rng.gen_range(0..2),
+        K::NZ => loop {
+            let v = biased_felt(rng);
+            if v != 0 {
+                break v;
+            }
+        },
+        K::UNZ => loop {
+            let v = biased_u32(rng);
+            if v != 0 {
+                break v;
+            }
+        },
+        K::Sh => *[0u64, 1, 2, 15, 16, 30, 31, rng.gen_range(0..32)].choose(rng).unwrap(),
+        K::P2 => *[0u64, 1, 31, 32, 62, 63, rng.gen_range(0..64)].choose(rng).unwrap(),
+        K::One => 1,
+        K::Zero => 0,
+    }
+}
+
+/// a value violating the documented precondition of kind `k` (or just any value if there is none)
+fn bad(k: K, rng: &mut Rng8) -> u64 {
+    let big = [1u64 << 32, (1 << 32) + 1, 1 << 63, P - 2, P - 1, rng.gen_range((1u64 << 32)..P)];
+    match k {
+        K::F | K::T | K::EB => biased_felt(rng),
+        K::U => *big.choose(rng).unwrap(),
+        K::B => *[2u64, 3, (1 << 32) - 1, 1 << 32, P - 1, rng.gen_range(2..P)].choose(rng).unwrap(),
+        K::NZ => 0,
+        K::UNZ => {
+            if rng.gen_bool(0.8) {
+                0
+            } else {
+                *big.choose(rng).unwrap()
+            }
+        }
+        K::Sh => *[32u64, 33, 64, (1 << 32) - 1, 1 << 32, P - 1].choose(rng).unwrap(),
+        K::P2 => *[64u64, 65, 128, (1 << 32) - 1, 1 << 32, P - 1].choose(rng).unwrap(),
+        K::One => *[0u64, 2, P - 1, rng.gen_range(2..P)].choose(rng).unwrap(),
+        K::Zero => *[1u64, 2, P - 1, rng.gen_range(1..P)].choose(rng).unwrap(),
+    }
+}
+
+/// Relations between operands needed for the instruction to succeed / be interesting.
+fn relate(op: Op, ops: &mut [u64], rng: &mut Rng8) {
+    match op {
+        Op::AssertEq if ops.len() == 2 => ops[1] = ops[0],
+        Op::AssertEqw if ops.len() == 8 => {
+            for i in 0..4 {
+                ops[i + 4] = ops[i];
+            }
+        }
+        Op::Eqw if ops.len() == 8 && rng.gen_bool(0.5) => {
+            for i in 0..4 {
+                ops[i + 4] = ops[i];
+            }
+        }
+        Op::Eq | Op::Neq | Op::Lt | Op::Lte | Op::Gt | Op::Gte | Op::U32Lt | Op::U32Lte | Op::U32Gt | Op::U32Gte
+        | Op::U32Min | Op::U32Max
+            if ops.len() == 2 && rng.gen_bool(0.25) =>
+        {
+            ops[1] = ops[0]
+        }
+        _ => {}
+    }
+}
+
+fn partner(op: Op, j: usize) -> Option<usize> {
+    match op {
+        Op::AssertEq => Some(1 - j),
+        Op::AssertEqw | Op::Eqw => Some((j + 4) % 8),
+        _ => None,
+    }
+}
+
+// TEXT RENDERING
+// ================================================================================================
+
+fn hex_short(v: u64, rng: &mut Rng8) -> String {
+    let mut h = format!("{v:x}");
+    if h.len() % 2 == 1 {
+        h.insert(0, '0');
+    }
+    // optional zero padding (even number of digits, at most 16)
+    let room = (16 - h.len()) / 2;
+    let pad = if room > 0 && rng.gen_bool(0.5) { rng.gen_range(0..=room) } else { 0 };
+    format!("0x{}{}", "00".repeat(pad), h)
+}
+
+fn hex_word(vals: &[u64]) -> String {
+    let mut s = String::from("0x");
+    for v in vals {
+        for b in v.to_le_bytes() {
+            s.push_str(&format!("{b:02x}"));
+        }
+    }
+    s
+}
+
+/// Named constants available to a program: (name, value)
+#[derive(Clone, Debug, Default)]
+pub struct Consts {
+    pub decls: Vec<String>,
+    pub vals: Vec<(String, u64)>,
+}
+
+impl Consts {
+    /// declares a constant with value `v` in a random documented form; returns its name
+    fn declare(&mut self, v: u64, rng: &mut Rng8) -> String {
+        if let Some((n, _)) = self.vals.iter().find(|(_, x)| *x == v) {
+            if rng.gen_bool(0.7) {
+                return n.clone();
+            }
+        }
+        let name = match rng.gen_range(0..4) {
+            0 => format!("C{}", self.vals.len()),
+            1 => format!("K_{}_X", self.vals.len()),
+            2 => format!("Z9{}", "_A".repeat(self.vals.len() + 1)),
+            _ => format!("ERR{}", self.vals.len()),
+        };
+        let expr = match rng.gen_range(0..8) {
+            0 | 1 => format!("{v}"),
+            2 => hex_short(v, rng),
+            3 => {
+                // a+b
+                let a = rng.gen_range(0..=v);
+                format!("{}+{}", a, v - a)
+            }
+            4 => {
+                // a-b with a < p
+                let b = rng.gen_range(0..=(P - 1 - v).min(1 << 40));
+                format!("{}-{}", v + b, b)
+            }
+            5 => {
+                // (q*d+r) written as q*d+r, standard precedence, no wrap
+                let d = rng.gen_range(1..=1000u64);
+                format!("{}*{}+{}", v / d, d, v % d)
+            }
+            6 => {
+                // integer division: (v*d + r)//d with r < d, no wrap
+                let d = rng.gen_range(1..=255u64);
+                if v <= (P - 1) / d - 1 {
+                    format!("({}+{})//{}", v * d, rng.gen_range(0..d), d)
+                } else {
+                    format!("{v}")
+                }
+            }
+            _ => {
+                // exact field division and a reference to an earlier constant
+                let d = rng.gen_range(1..=255u64);
+                if let Some((n, x)) = self.vals.last().cloned() {
+                    if x <= v && rng.gen_bool(0.6) {
+                        return self.push_decl(name, format!("{}+({})", n, v - x), v);
+                    }
+                }
+                if v <= (P - 1) / d {
+                    format!("{}/{}", v * d, d)
+                } else {
+                    format!("{v}")
+                }
+            }
+        };
+        self.push_decl(name, expr, v)
+    }
+    fn push_decl(&mut self, name: String, expr: String, v: u64) -> String {
+        self.decls.push(format!("const.{name}={expr}"));
+        self.vals.push((name.clone(), v));
+        name
+    }
+}
+
+/// renders one pushed value in a random textual form
+fn value_text(v: u64, consts: &mut Consts, allow_const: bool, rng: &mut Rng8) -> String {
+    match rng.gen_range(0..10) {
+        0..=4 => format!("{v}"),
+        5..=7 => hex_short(v, rng),
+        _ if allow_const => consts.declare(v, rng),
+        _ => format!("{v}"),
+    }
+}
+
+/// tokens that push `vals` (first pushed first, i.e. the last value ends up on top)
+fn push_tokens(vals: &[u64], consts: &mut Consts, allow_const: bool, rng: &mut Rng8) -> Vec<String> {
+    let mut out = vec![];
+    let mut i = 0;
+    while i < vals.len() {
+        let left = vals.len() - i;
+        if left >= 4 && rng.gen_bool(0.25) {
+            out.push(format!("push.{}", hex_word(&vals[i..i + 4])));
+            i += 4;
+            continue;
+        }
+        let n = rng.gen_range(1..=left.min(16));
+        let parts: Vec<String> = vals[i..i + n].iter().map(|v| value_text(*v, consts, allow_const, rng)).collect();
+        out.push(format!("push.{}", parts.join(".")));
+        i += n;
+    }
+    out
+}
+
+/// candidate immediates for the single-instruction phase: (text suffix, consts needed)
+fn imm_candidates(spec: &Spec, rng: &mut Rng8) -> Vec<(String, Consts)> {
+    let plain = |s: String| (s, Consts::default());
+    let g = grid(rng);
+    match spec.imm {
+        ImmGen::None => vec![plain(String::new())],
+        ImmGen::Felt | ImmGen::NzFelt | ImmGen::ExpVal => {
+            let mut v: Vec<_> = g.iter().map(|x| plain(format!(".{x}"))).collect();
+            if spec.imm == ImmGen::ExpVal {
+                // small exponents have dedicated expansions
+                for x in [3u64, 4, 5, 6, 7, 8, 9, 15, 16, 17, 31, 32, 33, 63, 64, 65, 255, 256] {
+                    v.push(plain(format!(".{x}")));
+                }
+            } else {
+                for x in [3u64, 4, 255, 256] {
+                    v.push(plain(format!(".{x}")));
+                }
+            }
+            // not field elements: docs silent -> Undefined, must not panic
+            v.push(plain(format!(".{}", P)));
+            v.push(plain(".18446744073709551615".into()));
+            v.push(plain(".18446744073709551616".into()));
+            v
+        }
+        ImmGen::U32 | ImmGen::NzU32 => {
+            let mut v: Vec<_> = [0u64, 1, 2, 65535, 65536, 1 << 31, (1 << 32) - 1, rng.gen::<u32>() as u64]
+                .iter()
+                .map(|x| plain(format!(".{x}")))
+                .collect();
+            for x in [1u64 << 32, (1 << 32) + 1, P - 1, P] {
+                v.push(plain(format!(".{x}")));
+            }
+            v
+        }
+        ImmGen::Shift => (0u64..=33).chain([64, 1 << 32]).map(|x| plain(format!(".{x}"))).collect(),
+        ImmGen::Index(lo, hi) => {
+            let mut v: Vec<_> = (lo..=hi).map(|x| plain(format!(".{x}"))).collect();
+            if lo > 0 {
+                v.push(plain(format!(".{}", lo - 1)));
+                v.push(plain(".0".into()));
+            }
+            v.push(plain(format!(".{}", hi + 1)));
+            v.push(plain(".16".into()));
+            v.push(plain(".4294967296".into()));
+            v
+        }
+        ImmGen::ExpBits => (0u64..=66).chain([100, 1 << 32]).map(|x| plain(format!(".u{x}"))).collect(),
+        ImmGen::Err => {
+            let mut v: Vec<_> = [0u64, 1, 65536, (1 << 32) - 1, rng.gen::<u32>() as u64, 1 << 32, P - 1]
+                .iter()
+                .map(|x| plain(format!(".err={x}")))
+                .collect();
+            for x in [0u64, 7, (1 << 32) - 1, rng.gen::<u32>() as u64, 1 << 32] {
+                let mut c = Consts::default();
+                let n = c.declare(x, rng);
+                v.push((format!(".err={n}"), c));
+            }
+            v
+        }
+        ImmGen::Push => vec![],
+    }
+}
+
+// PHASE (a): SINGLE INSTRUCTIONS
+// ================================================================================================
+
+fn pick_depth(nops: usize, rng: &mut Rng8) -> usize {
+    match rng.gen_range(0..10) {
+        0 => 0,
+        1 => rng.gen_range(0..=nops.min(15)),
+        2 | 3 => rng.gen_range(1..16),
+        4 | 5 => 16,
+        6 => 17,
+        _ => rng.gen_range(17..=40),
+    }
+}
+
+/// initial stack of depth `d`: operands on top (truncated if d is smaller), unique fillers below
+fn build_stack(operands: &[u64], d: usize, salt: u64) -> Vec<u64> {
+    (0..d).map(|i| if i < operands.len() { operands[i] } else { filler(i, salt) }).collect()
+}
+
+fn eval_single(spec_kind: &str, prog: &ProgramText, stack: &[u64], nops: usize, rep: &mut Report, rng: &mut Rng8) {
+    let chk = check_program(prog, stack, "single", rep, Some(rng), false);
+    let opclasses: Vec<&str> = stack.iter().take(nops.min(4)).map(|v| val_class(*v)).collect();
+    let form = prog.tokens.first().map(|t| isa::param_form(t)).unwrap_or_default();
+    rep.eval(&format!(
+        "single|{spec_kind}|{form}|{}|{}|{}",
+        opclasses.join(","),
+        depth_class(stack.len()),
+        chk.verdict.class()
+    ));
+    if !chk.violated {
+        record(prog, stack, &chk, "single", rep);
+        if rep.samples.len() < 3 && rng.gen_ratio(1, 2000) {
+            rep.sample(json!({"phase": "single", "src": prog.to_source(), "stack_top_first": stack.iter().map(|v| v.to_string()).collect::<Vec<_>>(), "reference": chk.verdict.class(), "real": chk.real_class}));
+        }
+    }
+}
+
+fn single_cases_for(spec: &Spec, rep: &mut Report, rng: &mut Rng8) {
+    if spec.imm == ImmGen::Push {
+        return push_cases(rep, rng);
+    }
+    let nops = spec.operands.len();
+    let salt = rng.gen::<u64>();
+    for (suffix, consts) in imm_candidates(spec, rng) {
+        let tok = format!("{}{}", spec.name, suffix);
+        let prog = ProgramText { consts: consts.decls.clone(), tokens: vec![tok] };
+        // exp.uN: keep the good exponent within the declared bits
+        let bits: Option<u64> = suffix.strip_prefix(".u").and_then(|b| b.parse().ok());
+        let good_ops = |rng: &mut Rng8| -> Vec<u64> {
+            let mut ops: Vec<u64> = spec.operands.iter().enumerate().map(|(i, k)| good(*k, i, salt, rng)).collect();
+            if let (Some(n), Some(K::EB)) = (bits, spec.operands.first()) {
+                if n < 64 {
+                    ops[0] &= (1u64 << n) - 1;
+                }
+            }
+            relate(spec.op, &mut ops, rng);
+            ops
+        };
+        if nops == 0 {
+            for d in [0usize, rng.gen_range(1..16), 15, 16, 17, rng.gen_range(18..=40)] {
+                let st = build_stack(&[], d, salt);
+                eval_single(&spec.kind, &prog, &st, nops, rep, rng);
+            }
+            continue;
+        }
+        let g = grid(rng);
+        for j in 0..nops {
+            let gv: Vec<u64> = if nops > 4 { g.choose_multiple(rng, 3).cloned().collect() } else { g.clone() };
+            for v in gv {
+                let mut ops = good_ops(rng);
+                ops[j] = v;
+                if let Some(pj) = partner(spec.op, j) {
+                    if rng.gen_bool(0.5) {
+                        ops[pj] = v;
+                    }
+                }
+                let d = if rng.gen_bool(0.6) { rng.gen_range(nops..=40.max(nops)) } else { pick_depth(nops, rng) };
+                let st = build_stack(&ops, d, salt);
+                eval_single(&spec.kind, &prog, &st, nops, rep, rng);
+            }
+        }
+        // all pairs of grid values for binary / ternary instructions
+        if (2..=3).contains(&nops) && suffix.is_empty() {
+            for a in &g {
+                for b in &g {
+                    let mut ops = good_ops(rng);
+                    ops[0] = *a;
+                    ops[1] = *b;
+                    let d = if rng.gen_bool(0.5) { 16 + rng.gen_range(0..=24) } else { rng.gen_range(nops..=16) };
+                    let st = build_stack(&ops, d, salt);
+                    eval_single(&spec.kind, &prog, &st, nops, rep, rng);
+                }
+            }
+        }
+        // a few fully "good" and fully random operand tuples at every depth class
+        for d in [0usize, rng.gen_range(1..16), 16, 17, rng.gen_range(18..=40)] {
+            let ops = good_ops(rng);
+            let st = build_stack(&ops, d, salt);
+            eval_single(&spec.kind, &prog, &st, nops, rep, rng);
+        }
+    }
+}
+
+/// constant pushes in every textual form, including the same value in all forms
+fn push_cases(rep: &mut Report, rng: &mut Rng8) {
+    let salt = rng.gen::<u64>();
+    let g = grid(rng);
+    let run = |prog: ProgramText, rep: &mut Report, rng: &mut Rng8| {
+        let d = pick_depth(0, rng);
+        let st = build_stack(&[], d, salt);
+        eval_single("push", &prog, &st, 0, rep, rng);
+    };
+    // one value, every form (the reference gives the same answer for each, so any difference
+    // between forms shows up as a mismatch of that form)
+    for v in &g {
+        let v = *v;
+        let mut forms: Vec<(Vec<String>, String)> = vec![
+            (vec![], format!("push.{v}")),
+            (vec![], format!("push.{}", hex_short(v, rng))),
+            (vec![], format!("push.0x{:016x}", v)),
+        ];
+        for e in [format!("{v}"), format!("0x{:016x}", v), hex_short(v, rng)] {
+            forms.push((vec![format!("const.VAL={e}")], "push.VAL".into()));
+        }
+        if v >= 1 {
+            forms.push((vec![format!("const.A={}", v - 1), "const.VAL=A+1".into()], "push.VAL".into()));
+        }
+        if v < P - 1 {
+            forms.push((vec![format!("const.VAL={}-1", v + 1)], "push.VAL".into()));
+        }
+        if v % 2 == 0 {
+            forms.push((vec![format!("const.VAL={}*2", v / 2)], "push.VAL".into()));
+            forms.push((vec![format!("const.VAL=({})", v / 2), "const.W=VAL+VAL".into()], "push.W".into()));
+        }
+        if v < P / 3 {
+            forms.push((vec![format!("const.VAL={}/3", v * 3)], "push.VAL".into()));
+            forms.push((vec![format!("const.VAL={}//3", v * 3 + 2)], "push.VAL".into()));
+        }
+        for (consts, tok) in forms {
+            run(ProgramText { consts, tokens: vec![tok] }, rep, rng);
+        }
+        // the value inside a word, long and short forms
+        let w = [rng.gen_range(0..P), v, biased_felt(rng), biased_u32(rng)];
+        run(ProgramText { consts: vec![], tokens: vec![format!("push.{}", hex_word(&w))] }, rep, rng);
+        run(ProgramText { consts: vec![], tokens: vec![format!("push.{}.{}.{}.{}", w[0], hex_short(w[1], rng), w[2], hex_short(w[3], rng))] }, rep, rng);
+    }
+    // 1..=16 values (and 17, 18: invalid), mixed forms
+    for n in 1..=18usize {
+        let vals: Vec<u64> = (0..n).map(|_| biased_felt(rng)).collect();
+        let mut c = Consts::default();
+        let parts: Vec<String> = vals.iter().map(|v| value_text(*v, &mut c, true, rng)).collect();
+        run(ProgramText { consts: c.decls.clone(), tokens: vec![format!("push.{}", parts.join("."))] }, rep, rng);
+        let parts: Vec<String> = vals.iter().map(|v| v.to_string()).collect();
+        run(ProgramText { consts: vec![], tokens: vec![format!("push.{}", parts.join("."))] }, rep, rng);
+    }
+    // values that are not field elements, in each form
+    for bad in [P, P + 1, u64::MAX] {
+        run(ProgramText { consts: vec![], tokens: vec![format!("push.{bad}")] }, rep, rng);
+        run(ProgramText { consts: vec![], tokens: vec![format!("push.0x{bad:016x}")] }, rep, rng);
+        run(ProgramText { consts: vec![], tokens: vec![format!("push.1.{bad}.2")] }, rep, rng);
+        let mut w = [1u64, 2, 3, 4];
+        w[rng.gen_range(0..4)] = bad;
+        run(ProgramText { consts: vec![], tokens: vec![format!("push.{}", hex_word(&w))] }, rep, rng);
+        run(ProgramText { consts: vec![format!("const.VAL={bad}")], tokens: vec!["push.VAL".into()] }, rep, rng);
+    }
+    run(ProgramText { consts: vec![], tokens: vec!["push.18446744073709551616".into()] }, rep, rng);
+    run(ProgramText { consts: vec![], tokens: vec!["push.340282366920938463463374607431768211456".into()] }, rep, rng);
+    // malformed hex lengths / names
+    for t in ["push.0x0102030405060708090a", "push.0x123", &format!("push.0x{}", "00".repeat(31)), &format!("push.0x{}", "00".repeat(33)), "push.UNDEFINED_CONST"] {
+        run(ProgramText { consts: vec![], tokens: vec![t.to_string()] }, rep, rng);
+    }
+    // malformed / borderline constant declarations (the reference says Fail or Undefined; either way
+    // the assembler must not panic)
+    for c in [
+        "const.lower=1", "const.1X=1", "const.A=1+", "const.A=B", "const.A=(1", "const.A=1)", "const.A=()", "const.A=",
+        "const.A=1++2", "const.A=+1", "const.A=1/0", "const.A=1//0", "const.A=0-1",
+        "const.A=18446744069414584320+1", "const.A=18446744069414584320*2", "const.A=0x10+1", "const.A=((2))",
+        "const.A=2*/3", "const.A=(1+2", "const.A=1+2)", "const.A=1//", "const.A=*2",
+    ] {
+        run(ProgramText { consts: vec![c.to_string()], tokens: vec!["push.1".into()] }, rep, rng);
+    }
+    // well-formed expressions: precedence, associativity, both divisions
+    for (e, v) in [
+        ("5/2", 9223372034707292163u64), ("7//2", 3), ("10-2-3", 5), ("100/5/2", 10), ("2+3*4", 14), ("2*(3+4)//5", 2),
+        ("(1+2)*(3+4)", 21), ("100//7//2", 7), ("2*3+4*5", 26), ("((7))", 7), ("18446744069414584320", P - 1),
+    ] {
+        let prog = ProgramText { consts: vec![format!("const.A={e}")], tokens: vec!["push.A".into(), format!("push.{v}"), "assert_eq".into()] };
+        run(prog, rep, rng);
+    }
+    for t in ["push.0xABCD", "push.0x", "push.1.", "push..1", "push.007"] {
+        run(ProgramText { consts: vec![], tokens: vec![t.to_string()] }, rep, rng);
+    }
+    // sdepth after pushes at every depth (LIFO order of overflow elements)
+    for d in [0usize, 5, 15, 16, 17, 30, 40] {
+        let n = rng.gen_range(1..=16);
+        let vals: Vec<u64> = (0..n).map(|i| filler(100 + i, salt)).collect();
+        let mut c = Consts::default();
+        let mut toks = push_tokens(&vals, &mut c, true, rng);
+        toks.push("sdepth".into());
+        let st = build_stack(&[], d, salt);
+        eval_single("push", &ProgramText { consts: c.decls, tokens: toks }, &st, 0, rep, rng);
+    }
+}
+
+// PHASE (b): SEQUENCES
+// ================================================================================================
+
+pub struct SeqCfg {
+    pub violate_rate: f64,
+    pub max_len: usize,
+}
+
+/// good immediate text for a spec in a sequence (always decimal / documented forms)
+fn seq_imm(spec: &Spec, consts: &mut Consts, violate: bool, rng: &mut Rng8) -> String {
+    match spec.imm {
+        ImmGen::None | ImmGen::Push => String::new(),
+        ImmGen::Felt | ImmGen::ExpVal => format!(".{}", biased_felt(rng)),
+        ImmGen::NzFelt => format!(".{}", if violate { 0 } else { good(K::NZ, 0, 0, rng) }),
+        ImmGen::U32 => format!(".{}", if violate { bad(K::U, rng) } else { biased_u32(rng) }),
+        ImmGen::NzU32 => format!(".{}", if violate { 0 } else { good(K::UNZ, 0, 0, rng) }),
+        ImmGen::Shift => format!(".{}", if violate { bad(K::Sh, rng) } else { good(K::Sh, 0, 0, rng) }),
+        ImmGen::Index(lo, hi) => {
+            if violate {
+                format!(".{}", if lo > 0 && rng.gen_bool(0.5) { lo - 1 } else { hi + 1 })
+            } else {
+                format!(".{}", rng.gen_range(lo..=hi))
+            }
+        }
+        ImmGen::ExpBits => {
+            if violate {
+                format!(".u{}", rng.gen_range(65..200))
+            } else {
+                format!(".u{}", *[0u64, 1, 5, 8, 31, 32, 33, 63, 64, rng.gen_range(0..=64)].choose(rng).unwrap())
+            }
+        }
+        ImmGen::Err => {
+            let code = if violate { 1u64 << 32 } else { biased_u32(rng) };
+            if rng.gen_bool(0.4) {
+                format!(".err={}", consts.declare(code, rng))
+            } else {
+                format!(".err={code}")
+            }
+        }
+    }
+}
+
+pub struct Seq {
+    pub prog: ProgramText,
+    pub stack: Vec<u64>,
+}
+
+/// Model-guided generation: the reference state decides which operands are needed.
+pub fn gen_sequence(specs: &[Spec], usable: &[usize], cfg: &SeqCfg, rng: &mut Rng8) -> Seq {
+    let d = match rng.gen_range(0..8) {
+        0 => 0,
+        1 | 2 => rng.gen_range(1..16),
+        3 => 16,
+        4 => 17,
+        _ => rng.gen_range(17..=40),
+    };
+    let salt = rng.gen::<u64>();
+    let stack: Vec<u64> = (0..d)
+        .map(|i| match rng.gen_range(0..10) {
+            0..=3 => biased_u32(rng),
+            4 | 5 => rng.gen_range(0..2),
+            6 => rng.gen_range(0..64),
+            7 => filler(i, salt),
+            _ => biased_felt(rng),
+        })
+        .collect();
+    let target = rng.gen_range(2..=cfg.max_len);
+    let mut consts = Consts::default();
+    let mut m = Machine::new(&stack);
+    let mut tokens: Vec<String> = vec![];
+    let mut n_ins = 0;
+    // the constants are declared lazily; the machine learns them as they appear
+    let sync = |m: &mut Machine, consts: &Consts| {
+        for (n, v) in &consts.vals {
+            m.consts.entry(n.clone()).or_insert(*v);
+        }
+    };
+    let mut terminal = false;
+    while n_ins < target && tokens.len() < 70 && !terminal {
+        let spec = &specs[*usable.choose(rng).unwrap()];
+        let violate = rng.gen_bool(cfg.violate_rate);
+        n_ins += 1;
+        if spec.imm == ImmGen::Push {
+            let n = if violate && rng.gen_bool(0.5) { 17 } else { rng.gen_range(1..=16) };
+            let mut vals: Vec<u64> = (0..n).map(|_| biased_felt(rng)).collect();
+            let toks = if violate && n <= 16 {
+                let k = rng.gen_range(0..n);
+                vals[k] = P + rng.gen_range(0..3);
+                vec![format!("push.{}", vals.iter().map(|v| v.to_string()).collect::<Vec<_>>().join("."))]
+            } else if n == 17 {
+                vec![format!("push.{}", vals.iter().map(|v| v.to_string()).collect::<Vec<_>>().join("."))]
+            } else {
+                push_tokens(&vals, &mut consts, true, rng)
+            };
+            sync(&mut m, &consts);
+            for t in toks {
+                match m.parse(&t) {
+                    Parsed::Ins(ins) => {
+                        m.step(&ins);
+                    }
+                    _ => terminal = true,
+                }
+                tokens.push(t);
+            }
+            continue;
+        }
+        let imm_violate = violate && spec.imm != ImmGen::None && rng.gen_bool(0.4);
+        let suffix = seq_imm(spec, &mut consts, imm_violate, rng);
+        sync(&mut m, &consts);
+        let tok = format!("{}{}", spec.name, suffix);
+        let ins = match m.parse(&tok) {
+            Parsed::Ins(ins) => ins,
+            _ => {
+                // invalid / undefined immediate: whole program verdict is decided at assembly time
+                tokens.push(tok);
+                terminal = true;
+                continue;
+            }
+        };
+        // 1. try the current stack as it is
+        if !violate && rng.gen_bool(0.6) {
+            let mut trial = m.clone();
+            if trial.step(&ins) == Step::Ok {
+                m = trial;
+                tokens.push(tok);
+                continue;
+            }
+        }
+        // 2. push operands that satisfy (or deliberately violate) the documented preconditions
+        let nops = spec.operands.len();
+        let mut ops: Vec<u64> = spec.operands.iter().enumerate().map(|(i, k)| good(*k, i + tokens.len(), salt, rng)).collect();
+        if let (isa::Imm::Bits(n), Some(K::EB)) = (&ins.imm, spec.operands.first()) {
+            if *n < 64 {
+                ops[0] &= (1u64 << n) - 1;
+            }
+        }
+        relate(spec.op, &mut ops, rng);
+        if violate && !imm_violate && nops > 0 {
+            let restrictive: Vec<usize> = (0..nops).filter(|i| !matches!(spec.operands[*i], K::F | K::T | K::EB)).collect();
+            let j = if restrictive.is_empty() { rng.gen_range(0..nops) } else { *restrictive.choose(rng).unwrap() };
+            ops[j] = bad(spec.operands[j], rng);
+            if spec.operands[0] == K::EB {
+                ops[0] = biased_felt(rng);
+            }
+        }
+        // only the operands an instruction really reads need pushing for the stack-shuffling ones
+        let need = if spec.operands.iter().all(|k| *k == K::T) { rng.gen_range(0..=nops.min(4)) } else { nops };
+        let mut deepest_first: Vec<u64> = ops[..need].to_vec();
+        deepest_first.reverse();
+        if !deepest_first.is_empty() {
+            let toks = push_tokens(&deepest_first, &mut consts, true, rng);
+            sync(&mut m, &consts);
+            for t in toks {
+                if let Parsed::Ins(pi) = m.parse(&t) {
+                    m.step(&pi);
+                }
+                tokens.push(t);
+            }
+        }
+        let mut trial = m.clone();
+        match trial.step(&ins) {
+            Step::Ok => {
+                m = trial;
+                tokens.push(tok);
+            }
+            _ if violate => {
+                tokens.push(tok);
+                terminal = true;
+            }
+            _ => {
+                // could not satisfy the preconditions (should be rare): skip the instruction
+            }
+        }
+    }
+    if terminal && rng.gen_bool(0.3) {
+        // instructions after the failing one must not matter
+        tokens.push((*["add", "drop", "swap", "push.1", "u32split"].choose(rng).unwrap()).to_string());
+    }
+    if tokens.is_empty() {
+        tokens.push("push.1".into());
+    }
+    Seq { prog: ProgramText { consts: consts.decls, tokens }, stack }
+}
+
+fn eval_seq(seq: &Seq, rep: &mut Report, rng: &mut Rng8) {
+    let chk = check_program(&seq.prog, &seq.stack, "seq", rep, Some(rng), false);
+    let n = seq.prog.tokens.len();
+    let last = match &chk.verdict {
+        Verdict::Fail { at: Some(i), .. } | Verdict::Undefined { at: Some(i), .. } => isa::token_kind(&seq.prog.tokens[*i]),
+        _ => seq.prog.tokens.last().map(|t| isa::token_kind(t)).unwrap_or_default(),
+    };
+    rep.eval(&format!("seq|len{}|{}|{}|{}", n / 8, depth_class(seq.stack.len()), chk.verdict.class(), last));
+    rep.count("seq_len_tokens", &format!("{:02}-{:02}", (n / 10) * 10, (n / 10) * 10 + 9));
+    if chk.violated {
+        return;
+    }
+    record(&seq.prog, &seq.stack, &chk, "seq", rep);
+    if rep.samples.len() < 3 && rng.gen_ratio(1, 50) {
+        rep.sample(json!({"phase": "seq", "src": crate::report::truncate(&seq.prog.to_source(), 600), "stack_top_first": seq.stack.iter().map(|v| v.to_string()).collect::<Vec<_>>(), "reference": chk.verdict.class(), "real": chk.real_class}));
+    }
+    // a documented run-time failure must happen AT the failing instruction: the program cut right
+    // before it must still succeed and match
+    if let Verdict::Fail { at: Some(i), kind } = &chk.verdict {
+        if !matches!(kind, FailKind::Asm(_)) && *i > 0 && rng.gen_bool(0.25) {
+            let pre = seq.prog.prefix(*i);
+            let c2 = check_program(&pre, &seq.stack, "seq-prefix", rep, None, false);
+            rep.count("fail_prefix_checked", &c2.verdict.class().split(':').next().unwrap_or("").to_string());
+        }
+    }
+}
+
+// RUN
+// ================================================================================================
+
+pub fn run(cfg: &Cfg) -> Report {
+    let all = specs();
+    // ---- phase (a)
+    let reps_a = cfg.n(24, 360);
+    let shards_a = 128;
+    let items: Vec<(usize, usize)> = (0..reps_a).flat_map(|r| (0..all.len()).map(move |s| (s, r))).collect();
+    let reports = par_map(shards_a, |sh| {
+        let mut rng = rng_for(cfg.seed, "C05-single", sh as u64);
+        let mut rep = Report::new();
+        for (idx, (s, _r)) in items.iter().enumerate() {
+            if idx % shards_a == sh {
+                single_cases_for(&all[*s], &mut rep, &mut rng);
+            }
+        }
+        rep
+    });
+    let mut rep = merge_all(reports);
+
+    // instruction kinds that already deviate on their own are reported once and kept out of the
+    // sequences, so that they do not mask everything executed after them
+    let mut quarantined: BTreeSet<String> = BTreeSet::new();
+    for v in &rep.violations {
+        if v.sig.starts_with("undefined-input-") || v.sig.starts_with("invalid-trace/") {
+            continue;
+        }
+        let sig = &v.sig;
+        if let Some(k) = sig.split('/').next() {
+            quarantined.insert(k.to_string());
+        }
+    }
+    let usable: Vec<usize> = (0..all.len()).filter(|i| !quarantined.contains(&all[*i].kind)).collect();
+    rep.note("quarantined_in_sequences", json!(quarantined.iter().collect::<Vec<_>>()));
+
+    // ---- phase (b)
+    let shards_b = 128;
+    let per = cfg.n(12000, 180000);
+    let seq_reports = par_map(shards_b, |sh| {
+        let mut rng = rng_for(cfg.seed, "C05-seq", sh as u64);
+        let mut rep = Report::new();
+        for i in 0..per {
+            let scfg = SeqCfg {
+                violate_rate: match i % 4 {
+                    0 => 0.0,
+                    1 => 0.02,
+                    2 => 0.05,
+                    _ => 0.15,
+                },
+                max_len: if i % 3 == 0 { 12 } else { 40 },
+            };
+            let seq = gen_sequence(&all, &usable, &scfg, &mut rng);
+            eval_seq(&seq, &mut rep, &mut rng);
+        }
+        rep
+    });
+    rep.merge(merge_all(seq_reports));
+
+    // ---- floors
+    let violating: BTreeSet<String> = rep
+        .violations
+        .iter()
+        .filter(|v| !v.sig.starts_with("undefined-input-") && !v.sig.starts_with("invalid-trace/"))
+        .filter_map(|v| v.sig.split('/').next().map(|s| s.to_string()))
+        .collect();
+    let mut missing_ok = vec![];
+    let mut missing_fail = vec![];
+    for s in &all {
+        if rep.get_count("kind_ok", &s.kind) == 0 && !violating.contains(&s.kind) {
+            missing_ok.push(s.kind.clone());
+        }
+        for f in &s.fails {
+            if rep.get_count("kind_fail_class", &format!("{} | {}", s.kind, f)) == 0 && !violating.contains(&s.kind) {
+                missing_fail.push(format!("{}|{}", s.kind, f));
+            }
+        }
+    }
+    rep.note("instruction_kinds", json!(all.len()));
+    rep.note("kinds_never_succeeding", json!(missing_ok));
+    rep.note("documented_failures_never_observed", json!(missing_fail));
+    rep.floor(missing_ok.is_empty(), "every-instruction-kind-observed-succeeding");
+    rep.floor(missing_fail.is_empty(), "every-documented-failing-case-observed-failing");
+    for f in ["push:dec", "push:hex", "push:hexword", "push:const", "push:mixed*", "push:dec*", "op:dec", "op:const", "op:uN", "op:bare"] {
+        rep.floor(rep.get_count("imm_form", f) > 0, &format!("imm-form-{f}"));
+    }
+    for f in ["dec", "hex", "expr"] {
+        rep.floor(rep.get_count("const_decl_form", f) > 0, &format!("const-decl-form-{f}"));
+    }
+    for ph in ["single", "seq"] {
+        for d in ["0", "1-15", "16", "17-40"] {
+            rep.floor(rep.get_count(&format!("initial_depth_{ph}"), d) > 0, &format!("initial-depth-{d}-in-{ph}"));
+        }
+        rep.floor(rep.get_count("deep_checked", ph) >= 100, &format!("deep-stack-compared-100x-in-{ph}"));
+    }
+    rep.floor(rep.hist_len("kind_undefined") >= 20, "undefined-inputs-exercised");
+    rep.floor(rep.get_count("side_monitor", "t-air-checked") > 0, "t-air-side-monitor-ran");
     rep
 }
 
-pub fn replay(_v: &serde_json::Value, _rep: &mut Report) {}
+pub fn replay(v: &Value, rep: &mut Report) {
+    if let Some(case) = v.get("case").and_then(Case::from_json) {
+        match ProgramText::from_source(&case.src) {
+            Some(prog) => {
+                let force = v.get("side_monitor").and_then(|b| b.as_bool()).unwrap_or(false);
+                let mut rng = rng_for(0, "C05-replay", 0);
+                let chk = check_program(&prog, &case.stack, "replay", rep, Some(&mut rng), force);
+                rep.eval("replay");
+                println!("reference: {}   real: {}", chk.verdict.class(), chk.real_class);
+            }
+            None => rep.inconclusive("replay: source is not a straight-line `begin … end` program"),
+        }
+    }
+}
